@@ -1,3 +1,4 @@
 pub mod engine;
 pub mod r1;
 pub mod r2;
+pub mod r3;
